@@ -36,6 +36,7 @@ RULES = {
     "C13-T2": "extent agreement: success paths store len from (cursor - token start) after the last cursor change and return the consumed length",
     "C13-T3": "unit detector: data only after header+white space; INVALID exactly when not ended by NL, ';' or end of input",
     "C13-T5": "sub-token order of the decimal numeric recognisers is that of 488.2 7.7.2.2: [sign] digits ['.' digits] [[ws] E [ws] [sign] digits]",
+    "C13-T7": "program data that breaks off after a comma (`1,` / `'a',`) is distinguishable from absent program data: the unit must not be dispatched as if it had no parameters",
     "C13-T6": "parser level: scpiParser_parseProgramData / parseAllProgramData report exactly the number of bytes their recognisers consumed (white space included), on every path",
     "C13-T4": "character classes of predicate helpers and of every advance guard equal the 488.2 classes (computed over all 256 byte values)",
 }
@@ -524,6 +525,55 @@ def rule_t5_detector(ck, prog, S):
                     "terminator must end an (empty) message of its own" % (names, " and advances the cursor itself" if adv else ""))
 
 
+def rule_t7(ck, prog):
+    f = prog.fn("scpiParser_parseAllProgramData")
+    if f is None:
+        ck.anchor_lost("C13-T7", "scpiParser_parseAllProgramData")
+        return
+    ck.analysed(f)
+    st = K.site(f, "malformed-data-distinguishable", 0)
+    unk = prog.enumconst.get("SCPI_TOKEN_UNKNOWN")
+    sig = {"none": set(), "after-comma": set()}
+    for ps in P.summarize(f, max_visits=3):
+        items_ok = 0
+        failed = False
+        for a, pol in ps.facts:
+            if isinstance(pol, tuple) or a.k != "BinaryOperator" or a.get("op") not in ("!=", "=="):
+                continue
+            if (a.child(0).strip_all_casts().get("path") or "").endswith(".type") and C.const_of(a.child(1)) == unk:
+                is_unknown = pol if a["op"] == "==" else not pol
+                if is_unknown:
+                    failed = True
+                    break
+                items_ok += 1
+        if not failed:
+            continue
+        out = []
+        tokp = f.params[1]["name"]
+        for e in ps.events:
+            if e[0] == "store":
+                t = C.store_target(e[1])
+                p_ = t.get("path") or ""
+                if p_.startswith(tokp + "->") or p_.startswith("*"):
+                    out.append((p_, C.const_of(e[1].child(1)) if e[1].get("op") == "=" else e[1].get("op")))
+        final = {}
+        for p_, v in out:
+            final[p_] = v
+        pc = ps.env.get("paramCount")
+        key = (tuple(sorted((k_, str(v)) for k_, v in final.items() if k_.endswith(("->type", "->len")))),
+               pc.v if pc is not None and pc.kind == "const" else None)
+        sig["none" if items_ok == 0 else "after-comma"].add(key)
+    if not sig["none"] or not sig["after-comma"]:
+        ck.anchor_lost("C13-T7", "failing paths of parseAllProgramData (no data: %d, after a comma: %d)" % (len(sig["none"]), len(sig["after-comma"])))
+    elif sig["none"] & sig["after-comma"]:
+        ck.violated("C13-T7", st, K.loc(f),
+                    "scpiParser_parseAllProgramData reports data that breaks off after a comma exactly like absent data (type UNKNOWN, "
+                    "length 0, -1 parameters): `NONE 1,` runs the handler without parameters and without any error, `ONE 1,` answers "
+                    "-109 Missing parameter although one was sent")
+    else:
+        ck.holds("C13-T7", st, K.loc(f), "a failure after a comma is reported differently from absent program data")
+
+
 def rule_t6(ck, prog):
     """conservation: bytes consumed by the recognisers a parser function calls == the length it reports"""
     from sa import bounds as B
@@ -590,6 +640,7 @@ def run(ck, fb, tier):
         rule_t3(ck, prog, S)
         rule_t5(ck, prog)
         rule_t6(ck, prog)
+        rule_t7(ck, prog)
         rule_t5_detector(ck, prog, S)
     ck.trust("spec/char_classes.json (488.2 section 7 classes and the leniencies of src/scpi.g)",
              "<ctype.h> classifiers by their C-locale definition")
